@@ -273,3 +273,24 @@ Theorem C07_program_roundtrip : forall (P: Type) rp (p: list FuncTrip.fdef), p <
    exists f0 N s', (forall fu, (f0 <= fu)%nat -> parse_tokens P fu (init_pstate P items eof file) = Ok (N, s')) /\ strip N = FuncTrip.prog_emb rp p).
 Proof. exact GenProg.program_roundtrip. Qed.
 Print Assumptions C07_program_roundtrip.
+
+(* parser side for translation units that mix file-scope object declarations and function definitions (FuncTrip.parse_of_generated_unit):
+   one Decl / FuncDef per external declaration, in source order; through the last branch of p_external_declaration (declarator, `=`,
+   p_initializer, p_init_declarator_list with the first declarator already parsed, _build_declarations, `;`) *)
+Theorem C07_parse_of_generated_unit : forall (P: Type) rp (u: list FuncTrip.edecl), Forall FuncTrip.ewf u ->
+  forall items le eof file, Spell P le (FuncTrip.unit_toks rp u) -> UpR P [[]] items le -> List.length items = List.length le ->
+  exists f0 N s', (forall fu, (f0 <= fu)%nat -> parse_tokens P fu (init_pstate P items eof file) = Ok (N, s')) /\
+    strip N = FuncTrip.unit_emb rp u /\ ParserBase.idx P s' = List.length le /\ (N.to_nat (ParserBase.ticks P s') <= 3 * List.length le)%nat.
+Proof. exact FuncTrip.parse_of_generated_unit. Qed.
+Print Assumptions C07_parse_of_generated_unit.
+
+(* non-vacuity: `int counter = 0; unsigned long limit; int next() { counter = counter + 1; return counter; } char flag = (counter, 1); void g() { }` *)
+Example C07_unit_example :
+  Forall FuncTrip.ewf FuncTrip.ex_unit /\ Spell nat FuncTrip.ex_unit_toks (FuncTrip.unit_toks false FuncTrip.ex_unit) /\
+  UpR nat [[]] FuncTrip.ex_unit_items FuncTrip.ex_unit_toks /\ List.length FuncTrip.ex_unit_items = List.length FuncTrip.ex_unit_toks /\
+  match parse_tokens nat 200 (init_pstate nat FuncTrip.ex_unit_items 0 0) with
+  | Ok (N, s') => strip N = FuncTrip.unit_emb false FuncTrip.ex_unit /\ ParserBase.idx nat s' = List.length FuncTrip.ex_unit_toks /\
+                  (N.to_nat (ParserBase.ticks nat s') <= 3 * List.length FuncTrip.ex_unit_toks)%nat
+  | _ => False
+  end.
+Proof. exact FuncTrip.unit_example. Qed.
